@@ -13,8 +13,8 @@ from tools.vlib import Outcome, sx
 from tools.props import c03_gen as G
 
 MANIFEST = {
-    "level_text": "Coq theorems (Properties/C03.v, no axioms) about a Gallina transcription of parse_and_cache_all_files (walk, acceptance test on the full path string incl. the root as spelled, read failure aborts, parse failure skipped), the per-file loop under every iteration order of the AST cache, is_tauri_command on top-level Item::Fn, and one wrapper per CommandInfo: for every well-formed layout, every root spelling outside the recorded class and every file order, the wrapper list is a permutation of the component-wise specification (annotated top-level functions of .rs files with no target/.git directory component); an unparsable file removes exactly its own wrappers. The two recorded defects are refuted inside Coq with computed witnesses. The model is tied to /repo on every run: the real CLI (both modes) and the library analysis run on generated directory layouts and are compared with the extracted model; commands.ts is read back with the extracted module parser and judged by the extracted oracle.",
-    "level_note": "Trusted: Coq kernel; the tie between hand-written model and code is differential (bounded); syn is outside the model (a file is Parsed items / Unparsable / NotUtf8 and the python printer renders items to Rust source); the AST cache (a HashMap keyed by path) is a list of the walked files and its iteration order an arbitrary permutation, which is exact when sibling names are distinct (layout_ok); Tera is modelled by one wrapper record per CommandInfo (the token-level template transcription of Model/Pipeline.v is related to it by a computed example and by the differential check, not by a general proof); the translated return type is whatever Model/Pipeline.ret_ts computes (its correctness is C05). Symlinks, unreadable directories, a project path that is a file, non-UTF-8 file names and Windows path separators are outside the model.",
+    "level_text": "Coq theorems (Properties/C03.v, no axioms) about a Gallina transcription of parse_and_cache_all_files (walk, acceptance test on the directory components of the path below the project path, files that cannot be read or parsed are reported and skipped), the per-file loop under every iteration order of the AST cache, is_tauri_command on top-level Item::Fn, and one wrapper per CommandInfo: for every well-formed layout, every spelling of the project path and every file order, with no known-finding premise, the wrapper list is a permutation of the component-wise specification (annotated top-level functions of .rs files with no target/.git directory component); an unparsable or non-UTF-8 file removes exactly its own wrappers. The two formerly recorded defects (C03-1 root below target/.git, C03-2 non-UTF-8 file aborts the run) are repaired; their witnesses are positive theorems in Coq and ordinary regression cases of the corpus. The model is tied to /repo on every run: the real CLI (both modes) and the library analysis run on generated directory layouts and are compared with the extracted model; commands.ts is read back with the extracted module parser and judged by the extracted oracle.",
+    "level_note": "Trusted: Coq kernel; the tie between hand-written model and code is differential (bounded); syn is outside the model (a file is Parsed items / Unparsable / NotUtf8 and Path::strip_prefix(project_path) of a walked path is taken to give back the components below the root, which holds for every path WalkDir builds by joining; and the python printer renders items to Rust source); the AST cache (a HashMap keyed by path) is a list of the walked files and its iteration order an arbitrary permutation, which is exact when sibling names are distinct (layout_ok); Tera is modelled by one wrapper record per CommandInfo (the token-level template transcription of Model/Pipeline.v is related to it by a computed example and by the differential check, not by a general proof); the translated return type is whatever Model/Pipeline.ret_ts computes (its correctness is C05). Symlinks, unreadable directories, a project path that is a file, non-UTF-8 file names and Windows path separators are outside the model.",
     "technique": "Rocq/Coq proof over hand-written model + correspondence check (extracted OCaml vs real CLI and Rust harness)",
     "design_ref": "DESIGN.md section 5 C03, section 11 accepted_spec",
 }
@@ -22,8 +22,8 @@ MANIFEST = {
 RULE = ("layouts: random trees of 1-8 files, depth <= 4, directory names drawn from {target, .git, near misses, y.rs, ...}, "
         ".rs / non-.rs / odd file names, parsed / unparsable / non-UTF-8 contents, item mixes (top-level fns, impl methods, "
         "inline mods, other items; command attribute spellings, near-miss attributes, other attributes in any order), "
-        "x root spellings (absolute, relative, ./, ., trailing slash, roots below or named target/.git); "
-        "malformed: the same with mostly unparsable/non-UTF-8/odd files; paths: exhaustive enumeration of one command at every "
+        "x root spellings (absolute, relative, ./, ., trailing slash, roots below or named target/.git - the former class C03-1, now ordinary inputs); "
+        "malformed: the same with mostly unparsable/non-UTF-8/odd files (non-UTF-8 .rs files, the former class C03-2, are ordinary inputs); paths: exhaustive enumeration of one command at every "
         "directory path of length <= 2 over {target,.git,src,targets,git} x 4 file names x 7 root spellings. Every case runs the "
         "CLI in mode none and zod and the library analysis. Non-trivial: at least one function carrying a command attribute "
         "somewhere in the tree; distinct = distinct case values")
@@ -31,7 +31,7 @@ TRUSTED = ["tools/props/c03_gen.py renders items to Rust source (trusted printer
            "Spec/TsModule.v module parser + Spec/C03Spec.invokes extractor read commands.ts (specification of the emitted TypeScript subset, unproven)",
            "Spec/C03Spec.c03_ok multiset comparison is the run-time oracle (perm_b proved sound and complete w.r.t. Permutation in Proofs/C03Proofs.v)"]
 ASSUMPTIONS = ["sibling directory entries have distinct names and names contain no slash (layout_ok; true of every real directory)",
-               "the sandbox directory path itself contains neither /target/ nor /.git/ (checked at start-up)"]
+               "the project path is spelled without .. and reaches its files without symlinks (path_string; strip_prefix succeeds)"]
 
 
 def has_cmd_attr(case):
@@ -56,6 +56,31 @@ def has_cmd_attr(case):
     return nodes(case["tree"])
 
 
+FORMER = {"C03-1": 0, "C03-2": 0}     # cases of the run inside the repaired classes (evidence only)
+
+
+def former_class(root, case):
+    """Informative only (evidence): does the case lie in one of the repaired classes?
+    C03-1: the root as spelled, followed by a separator, contains /target/ or /.git/;
+    C03-2: some .rs file outside target/.git is not UTF-8."""
+    r = root.rstrip("/") + "/" if root != "/" else root
+    out = []
+    if "/target/" in r or "/.git/" in r:
+        out.append("C03-1")
+
+    def nodes(ns, excluded):
+        for n in ns:
+            if n["t"] == "d":
+                if nodes(n["ch"], excluded or n["name"] in ("target", ".git")):
+                    return True
+            elif n["kind"] == "notutf8" and not excluded and n["name"].endswith(".rs") and len(n["name"]) > 3:
+                return True
+        return False
+    if nodes(case["tree"], False):
+        out.append("C03-2")
+    return out
+
+
 def read_text(path):
     try:
         return open(path, "rb").read().decode("utf-8", "replace")
@@ -68,8 +93,6 @@ def evaluate(cases, tag="c03"):
     if not cases:
         return []
     with vlib.Sandbox(tag) as sb:
-        if "/target/" in sb.root + "/" or "/.git/" in sb.root + "/":
-            raise vlib.BuildError("sandbox path %s would itself trigger the path exclusion" % sb.root)
         jobs = []
         for i, c in enumerate(cases):
             base = sb.path("c%d" % i)
@@ -98,8 +121,8 @@ def evaluate(cases, tag="c03"):
                 raise vlib.BuildError("runner: %s" % m)
         judge_in = []
         for j, c, m, o in zip(jobs, cases, models, clis):
-            spec = m[5]
-            mw = m[4]      # [] = Failed, [[pairs]] = Done
+            spec = m[3]
+            mw = m[2]      # [[pairs]]; [] would mean a failing model run (impossible since the repair of C03-2)
             for mode in ("none", "zod"):
                 judge_in.append(sx([[list(p) for p in spec], [[list(p) for p in mw[0]]] if mw else None, o[mode]["commands_ts"]]))
         judged = vlib.run_runner("c03-judge", judge_in)
@@ -108,15 +131,15 @@ def evaluate(cases, tag="c03"):
                 raise vlib.BuildError("runner: %s" % r)
     outs = []
     for k, (j, c, m, o, l) in enumerate(zip(jobs, cases, models, clis, lib)):
-        layout_ok, kf_root, kf_utf8 = m[0] == "true", m[1] == "true", m[2] == "true"
+        layout_ok = m[0] == "true"
         if not layout_ok:
             raise vlib.BuildError("generator produced a layout outside the domain (layout_ok false): %s" % json.dumps(c)[:400])
-        model_lib = m[3]
-        model_failed = not m[4]
-        spec = [tuple(p) for p in m[5]]
+        model_lib = m[1]
+        model_failed = not m[2]
+        spec = [tuple(p) for p in m[3]]
         corr, ok = True, True
         detail = {"root": j["root"].replace(j["base"], "<sandbox>"), "cwd": j["cwd"].replace(j["base"], "<sandbox>"),
-                  "spec": sorted(spec), "model_failed": model_failed, "kf_root": kf_root, "kf_notutf8": kf_utf8}
+                  "spec": sorted(spec), "model_failed": model_failed}
         # library level: multiset of (name, file_path, return_type, is_async)
         if "panic" in l or l.get("skipped"):
             corr = False
@@ -155,9 +178,13 @@ def evaluate(cases, tag="c03"):
                             "wrappers": ws, "oracle_ok": this_ok, "matches_model": jcorr if not model_failed else impl_failed,
                             "output_tail": run["tail"]}
         if not model_failed:
-            detail["model_wrappers"] = sorted(tuple(p) for p in m[4][0])
-        kf = "C03-1" if kf_root else ("C03-2" if kf_utf8 else None)
-        outs.append(Outcome(c, corr, ok, kf, detail, nontrivial=has_cmd_attr(c)))
+            detail["model_wrappers"] = sorted(tuple(p) for p in m[2][0])
+        # no recorded class is left (C03-1 and C03-2 are `fixed` entries, which suppress nothing):
+        # a case where the property fails is always a VIOLATION
+        detail["former_class"] = former_class(j["root"], c)
+        for k_ in detail["former_class"]:
+            FORMER[k_] += 1
+        outs.append(Outcome(c, corr, ok, None, detail, nontrivial=has_cmd_attr(c)))
     return outs
 
 
@@ -173,9 +200,12 @@ def run(rep):
     vlib.build_harness("c03")
     vlib.build_runner("c03")
     vlib.build_repo_bin()
+    for k_ in FORMER:
+        FORMER[k_] = 0
     rng = random.Random(rep.seed)
     thorough = rep.tier == "thorough"
-    # corpus first: known-finding witnesses and regression cases
+    # corpus first: regression cases, among them the witnesses of the repaired findings C03-1 and
+    # C03-2 (corpus/C03/fixed-*.json), which must pass like any other case
     kf_w = [e["witness"] for e in vlib.load_known_findings("C03")]
     rep.add("corpus", evaluate(kf_w + corpus_cases(), "c03-corpus"), sample_count=4)
     dist = {}
@@ -193,9 +223,7 @@ def run(rep):
     rep.extra["input_distribution"] = dict(sorted(dist.items()))
     rep.extra["sizes"] = {"layouts": len(layouts), "malformed": len(malformed), "paths": len(paths),
                           "cli_runs": 2 * (len(layouts) + len(malformed) + len(paths))}
-    inside = sum(s["in_known_class"] for s in rep.streams.values())
-    rep.extra["cases_inside_a_known_class"] = inside
-    rep.extra["cases_outside_every_class"] = rep.outcomes - inside
+    rep.extra["cases_in_former_classes"] = dict(FORMER)
 
 
 def replay(rep, payload):
